@@ -150,43 +150,72 @@ def i1_callers(prog, rep):
                 continue
             n += 1
 
-            def origin(local):
-                """field path of the place a temporary was borrowed from, following copies inside the body"""
-                seen = set()
-                cur = local
-                for _ in range(8):
-                    if cur in seen:
-                        break
-                    seen.add(cur)
-                    defs = [s for bb2 in b['blocks'] for s in bb2['s'] if s['k'] == 'assign' and s['pl']['l'] == cur and not s['pl']['p']]
-                    if len(defs) != 1:
-                        return None
-                    rv = defs[0]['rv']
-                    pls = dataflow.rvalue_places(rv)
-                    if rv['k'] in ('ref', 'rawptr') and pls:
-                        steps = dataflow.place_steps(prog, b, pls[0])
-                        if steps:
-                            return pls[0]['l'], [(s_[0], s_[1], s_[2]) for s_ in steps]
-                        cur = pls[0]['l']
-                    elif rv['k'] in ('use', 'cast') and pls:
-                        cur = pls[0]['l']
-                    else:
-                        return None
+            def origins(local, want_field=None, seen=None, depth=0):
+                """all places a temporary may have been borrowed from (over every definition in the body, through
+                copies, re-borrows, tuples built and taken apart again): [(base local, [(type, variant, field)..])]"""
+                seen = seen if seen is not None else set()
+                if (local, want_field) in seen or depth > 12:
+                    return []
+                seen.add((local, want_field))
+                out = []
+                for bb2 in b['blocks']:
+                    for s_ in bb2['s']:
+                        if s_['k'] != 'assign' or s_['pl']['l'] != local or s_['pl']['p']:
+                            continue
+                        rv = s_['rv']
+                        if rv['k'] == 'agg' and want_field is not None and want_field < len(rv['ops']):
+                            o = rv['ops'][want_field]
+                            if o['k'] != 'const':
+                                out += origins(o['pl']['l'], _proj_field(o['pl']), seen, depth + 1) if not _is_borrow_path(o['pl']) else []
+                            continue
+                        if want_field is not None:
+                            continue
+                        pls = dataflow.rvalue_places(rv)
+                        if not pls:
+                            continue
+                        pl = pls[0]
+                        steps = dataflow.place_steps(prog, b, pl)
+                        if rv['k'] in ('ref', 'rawptr') and steps:
+                            out.append((pl['l'], [(s2[0], s2[1], s2[2]) for s2 in steps]))
+                        elif rv['k'] in ('use', 'cast', 'ref', 'rawptr'):
+                            flds = [e for e in pl['p'] if e[0] == 'field']
+                            if len(flds) == 1 and not steps_named(steps):
+                                out += origins(pl['l'], flds[0][1], seen, depth + 1)      # (tuple).i
+                            else:
+                                out += origins(pl['l'], None, seen, depth + 1)
+                return out
+
+            def steps_named(steps):
+                return any(s2[0] and s2[0] not in ('closure', 'coroutine') for s2 in steps)
+
+            def _proj_field(pl):
                 return None
-            a0 = origin(t['args'][0]['pl']['l']) if t['args'][0]['k'] != 'const' else None
-            a2 = origin(t['args'][2]['pl']['l']) if t['args'][2]['k'] != 'const' else None
-            ok = False
+
+            def _is_borrow_path(pl):
+                return False
+            a0 = origins(t['args'][0]['pl']['l']) if t['args'][0]['k'] != 'const' else []
+            a2 = origins(t['args'][2]['pl']['l']) if t['args'][2]['k'] != 'const' else []
+            ok = bool(a0) and bool(a2)
             why = 'cannot resolve the borrowed places (%s, %s)' % (a0, a2)
-            if a0 and a2:
-                f0, f2 = a0[1][-1], a2[1][-1]
-                pair = (f0[0], f0[2], f2[2])
-                pair = ((f0[0] or '').split('::')[-1], f0[2], f2[2])
-                ok = a0[0] == a2[0] and a0[1][:-1] == a2[1][:-1] and f0[0] == f2[0] and pair in (('ADSB', 'message', 'icao24'), ('ControlField', 'me', 'aa'))
-                why = 'message = %s.%s, address = %s.%s (base locals %s / %s)' % (f0[0], f0[2], f2[0], f2[2], a0[0], a2[0])
+            pairs = []
+            if ok:
+                def kind(o):
+                    f = o[1][-1]
+                    return ((f[0] or '').split('::')[-1], f[2])
+                for o0 in a0:
+                    mates = [o2 for o2 in a2 if o2[0] == o0[0] and o2[1][:-1] == o0[1][:-1] and o2[1][-1][0] == o0[1][-1][0]]
+                    good = [o2 for o2 in mates if (kind(o0), kind(o2)) in ((('ADSB', 'message'), ('ADSB', 'icao24')), (('ControlField', 'me'), ('ControlField', 'aa')))]
+                    pairs.append((kind(o0), [kind(o2) for o2 in mates]))
+                    if not good:
+                        ok = False
+                for o2 in a2:
+                    if not any(o0[0] == o2[0] and o0[1][:-1] == o2[1][:-1] for o0 in a0):
+                        ok = False
+                why = 'message / address places: %s' % pairs
             rep.check(ok, 'I1-isolation', 'caller#%s#%d' % (b['name'], bi), '%s:%s' % (b['file'], t.get('sp')),
                       'decode_position must receive the message and the address of the same record: ' + why,
                       sample={'caller': b['name'], 'pair': why} if n <= 2 else None)
-    rep.floor('call sites of decode_position', n, 6)
+    rep.floor('call sites of decode_position', n, 3)
 
 
 def i2_i3(prog, rep, tier, body, L):
@@ -225,6 +254,9 @@ def _i2_i3(prog, rep, tier, body, L):
                     if o != A.BOT and o[0] == 'R':
                         m = _entry_field(E_, st, st.resolve(E_.expand(models.deref(E_, st, o))))
                     st.tags = st.tags | {('PAIRMSG', m)}
+                if self.name != 'dist_haversine':
+                    # the position stored later may come from any decoder called on the path
+                    st.tags = st.tags | {('SRC', self.name, bb)}
                 vals = []
                 for i in range(1, nf.body['argc'] + 1):
                     v = st.cells.get((nf.depth, i))
@@ -243,9 +275,6 @@ def _i2_i3(prog, rep, tier, body, L):
                         dist_atoms.add(t)
                         rets[i] = (st, E_.reg(('F', x[1], x[2], x[3], t)))
                     continue
-                r = st.resolve(E_.expand(v))
-                if r != A.BOT and r[0] == 'E' and any(vi == 1 for vi, _ in r[2]):
-                    st.tags = st.tags | {('SRC', self.name, bb)}
     for nm, f in fns.items():
         E.hooks[f['id']] = Src(nm)
     writes = []
